@@ -24,6 +24,7 @@
           bytes of w (every completed encryption chunk).
      The stopping status is left open: the decompressor ends a cut stream with an error
      inside a brotli stream (RepairMask.v). *)
+From MLA Require Import Limit.
 From MLA Require Import Base Stream Blocks Writer WriterProofs Repair RepairSpec RepairPure
   RepairProofs2 RepairProofs5 RepairProofs6 EncLayer EncAuth EncAuthFs EncWriter EncWriterProofs EncFlushProofs
   FlushProofs Run ComposeRdOnly RepairMask ComposeRepair ComposeWriterRun ComposeFlush ComposeFlushAt
@@ -32,6 +33,7 @@ From Coq Require Import ZifyBool ZifyNat ZifyN.
 Open Scope N_scope.
 
 Section FlushComp.
+  Context {LIM : Limit}.
   Variable FNMAX CACHE : N.
   Hypothesis HFN : FNMAX < 2 ^ 64.
   Hypothesis HCACHE : 0 < CACHE.
@@ -68,11 +70,15 @@ Section FlushComp.
   (* any source whose ghost (RepairMask.Mask) is a read-only cursor over the block stream *)
   Theorem flush_at_masked (S0 : Stream) (J : st (Mask S0) -> N -> Prop) s0 fuel :
     RdRefines (rd (Mask S0)) (w_out s) J -> J (Some s0) 0 -> (N.to_nat (len (w_out s)) < fuel)%nat ->
+    (* finalize did not fail with SerializationError (footer within the bincode limit) *)
+    repair S0 fuel s0 w_init <> Err EDeser ->
     recovers_all_st s pre (repair S0 fuel s0 w_init).
   Proof.
-    intros HR HJ Hf.
+    intros HR HJ Hf Hser.
+    assert (HserM : repair (Mask S0) fuel (Some s0) w_init <> Err EDeser).
+    { intros E. apply Hser. exact (repair_mask_ser S0 FNMAX CACHE T_START T_CONTENT T_EOA T_EOF H fuel s0 w_init E). }
     destruct (flush_at_plain FNMAX CACHE HFN HCACHE T_START T_CONTENT T_EOA T_EOF Htags H H_len order
-                pre post sfin rsall Hrun Hclean Hops Hnext (Mask S0) J (Some s0) fuel HR HJ Hf)
+                pre post sfin rsall Hrun Hclean Hops Hnext (Mask S0) J (Some s0) fuel HR HJ Hf HserM)
       as (bl & out & obl & Ho & Hwf & Hfl & Hr & Hg & Hs & Hc).
     destruct (repair_mask S0 FNMAX CACHE T_START T_CONTENT T_EOA T_EOF H fuel s0 w_init _ _ _ Hr)
       as (status & Hr').
@@ -105,13 +111,14 @@ Section FlushComp.
   (* compression only: the destination holds w *)
   Theorem flush_at_comp (Sin : Stream) (Rin : st Sin -> N -> Prop) i0 fuel :
     SrcRefines Sin w Rin -> Rin i0 0 -> (N.to_nat (len (w_out s)) < fuel)%nat ->
+    repair (FsComp Sin) fuel (FReady i0) w_init <> Err EDeser ->
     recovers_all_st s pre (repair (FsComp Sin) fuel (FReady i0) w_init).
   Proof.
-    intros HS HR Hf.
+    intros HS HR Hf Hser.
     pose proof (fscomp_mask_refines BLOCK FSBUF HFSBUF HBLOCK32 dstate dinit dstep D fin L tail Htail
                   Sin w Rin HS bs Hbs Hw pfuel Hpf) as HRM.
     unfold fsc_out in HRM. rewrite Hflush in HRM.
-    apply (flush_at_masked (FsComp Sin) _ (FReady i0) fuel HRM); [|exact Hf].
+    apply (flush_at_masked (FsComp Sin) _ (FReady i0) fuel HRM); [|exact Hf|exact Hser].
     exact (JM_start BLOCK FSBUF HFSBUF HBLOCK32 dstate dinit dstep D fin tail Sin w Rin bs pfuel Hpf i0 HR).
   Qed.
 
@@ -156,18 +163,20 @@ Section FlushComp.
   (* DataEvenUnauthenticated: everything appended before the flush *)
   Theorem flush_at_comp_enc fuel : (N.to_nat (len (w_out s)) < fuel)%nat ->
     exists e0 b, fs_open Sin i0 = (e0, Ok b) /\
-      recovers_all_st s pre (repair (FsComp (FsEnc true Sin)) fuel (@FReady dstate (FsEnc true Sin) e0) w_init).
+      (repair (FsComp (FsEnc true Sin)) fuel (@FReady dstate (FsEnc true Sin) e0) w_init <> Err EDeser ->
+       recovers_all_st s pre (repair (FsComp (FsEnc true Sin)) fuel (@FReady dstate (FsEnc true Sin) e0) w_init)).
   Proof.
     intros Hf.
     destruct (fsenc_rd_refines_skb CHUNK TAG HCHUNK ks tagc true Sin _ Rin Hin Hbig i0 Hi0)
       as (I & HR & e0 & b & Ho & HI).
-    exists e0, b. split; [exact Ho|]. rewrite unauth_output_w in HR.
-    exact (flush_at_comp (FsEnc true Sin) I (e0 : st (FsEnc true Sin)) fuel (rdrefines_src (FsEnc true Sin) w I HR) HI Hf).
+    exists e0, b. split; [exact Ho|]. rewrite unauth_output_w in HR. intros Hser.
+    exact (flush_at_comp (FsEnc true Sin) I (e0 : st (FsEnc true Sin)) fuel (rdrefines_src (FsEnc true Sin) w I HR) HI Hf Hser).
   Qed.
 
   (* authenticated mode: what the decompressor makes of the completed encryption chunks *)
   Theorem flush_at_comp_enc_auth fuel : (N.to_nat (len (w_out s)) < fuel)%nat ->
     exists e0 b, fs_open Sin i0 = (e0, Ok b) /\
+    (repair (FsComp (FsEnc false Sin)) fuel (@FReady dstate (FsEnc false Sin) e0) w_init <> Err EDeser ->
     exists m k bl status unfinished out obl,
       ew_ctr es * CHUNK <= m /\ m <= len w /\ (ew_ctr es = 0 -> m = len w) /\
       k = len (fs_spec D bs (takeN m w)) /\ k <= len (w_out s) /\
@@ -175,7 +184,7 @@ Section FlushComp.
       repair (FsComp (FsEnc false Sin)) fuel (@FReady dstate (FsEnc false Sin) e0) w_init = Ok (status, unfinished, out) /\
       good_output out obl /\
       (forall f, In f (files_of bl) -> content_of (files_of obl) (f_name f) = present (f_id f) bl k) /\
-      (forall id, data_of_id (files_of bl) id = appended id w_init pre).
+      (forall id, data_of_id (files_of bl) id = appended id w_init pre)).
   Proof.
     intros Hf.
     destruct (run_to_flush FNMAX T_START T_CONTENT T_EOA T_EOF H order pre post sfin rsall Hrun) as (Hpre & Hcomb & _).
@@ -184,7 +193,11 @@ Section FlushComp.
       as (bl & Ho & Hwf & Hne & Hfl & Hd).
     destruct (fsenc_rd_refines_skb CHUNK TAG HCHUNK ks tagc false Sin _ Rin Hin Hbig i0 Hi0)
       as (I & HR & e0 & b & Hop & HI).
-    exists e0, b. split; [exact Hop|].
+    exists e0, b. split; [exact Hop|]. intros Hser.
+    assert (HserM : repair (Mask (FsComp (FsEnc false Sin))) fuel (Some (@FReady dstate (FsEnc false Sin) e0)) w_init <> Err EDeser).
+    { intros E. apply Hser.
+      exact (repair_mask_ser (FsComp (FsEnc false Sin)) FNMAX CACHE T_START T_CONTENT T_EOA T_EOF H fuel
+               (@FReady dstate (FsEnc false Sin) e0) w_init E). }
     set (m := ew_auth_len CHUNK TAG ks tagc es w).
     destruct (ew_auth_len_bounds CHUNK TAG HCHUNK HTAG ks tagc Htagc es w es_inv_w) as (B1 & B2 & B3).
     fold m in B1, B2, B3.
@@ -208,7 +221,7 @@ Section FlushComp.
     assert (Hlb : len b' <= len (w_out s)) by (rewrite Ho; apply prefix_len, Hb').
     destruct (repair_max_rd FNMAX CACHE HFN HCACHE T_START T_CONTENT T_EOA T_EOF Htags H H_len
                 _ _ _ HRM bl [] Hwf (or_intror eq_refl)
-                (prefix_trans _ _ _ Hb' (prefix_app _ _)) (Some (@FReady dstate (FsEnc false Sin) e0)) HJ fuel ltac:(lia))
+                (prefix_trans _ _ _ Hb' (prefix_app _ _)) (Some (@FReady dstate (FsEnc false Sin) e0)) HJ fuel ltac:(lia) HserM)
       as (status' & unf & out & obl & Hr & Hg & Hc).
     destruct (repair_mask (FsComp (FsEnc false Sin)) FNMAX CACHE T_START T_CONTENT T_EOA T_EOF H fuel
                 (@FReady dstate (FsEnc false Sin) e0) w_init _ _ _ Hr) as (status & Hr').
